@@ -99,6 +99,10 @@ def check_unreadable_dir(ctx, rng):
     ctx.count("unreadable_dir:%s -> %s" % (how, "result" if kind == "ok" else "raised"))
     bad = stores.closed_violations(dest.path)
     ctx.oracle(not bad, case, {"why": "the destination is not closed after a transfer with an unreadable directory object", "dangling": bad[:3]})
+    # Transfer.doTransferR: the transfer gives up exactly when a new directory's listing cannot be read
+    ans = ctx.driver.ask({"op": "transfer", "L": uni.L_json(), "src": sorted(uni.all_oids()), "dest": sorted(pre), "req": req, "shallow": True,
+                          "fails": [], "index": None, "dir_order": [], "unreadable": [victim]})
+    ctx.corr("Transfer.doTransferR~transfer() with an unreadable directory object (gives up)", case, kind != "ok", bool(ans.get("gave_up")))
     if kind != "ok":
         return
     tr, fl = set(stores.vals(res.transferred)), set(stores.vals(res.failed))
